@@ -65,7 +65,7 @@ func cases(tier string, seed int64) []fw.Case {
 	fams := pureFamilies()
 	k := int64(0)
 	// in-situ histories first (they take longest)
-	nSitu := 24
+	nSitu := 16
 	if thorough {
 		nSitu = 150
 	}
